@@ -1,7 +1,8 @@
 #!/venv/bin/python
-"""tools/mutation_matrix.py [names...] : for every mutant (mutants/*.diff, seeded/*/patch.diff) apply it to /repo, run the
-repository test-suite (must still pass) and the quick checks expected to catch it; record in mutants/matrix.json.
-/repo is restored after every mutant."""
+"""tools/mutation_matrix.py [names...] : for every mutant (mutants/*.diff, seeded/*/patch.diff) apply it to a scratch
+worktree of /repo HEAD (never to /repo itself), run the repository test-suite there (must still pass) and the quick
+checks expected to catch it with IXAI_REPO pointing at the worktree (evidence goes to a scratch directory); record in
+mutants/matrix.json; the worktree is removed after every mutant."""
 import glob, json, os, re, subprocess, sys, time
 os.chdir('/verif')
 idx = json.load(open('mutants/index.json'))
@@ -20,24 +21,28 @@ have = {os.path.basename(f)[1:3] for f in glob.glob('checks/c[0-9][0-9].py')}
 for name, (patch, props) in muts.items():
     if want and not any(w in name or w in props for w in want):
         continue
-    assert subprocess.run(['git', '-C', '/repo', 'status', '--porcelain'], capture_output=True, text=True).stdout == '', '/repo dirty'
-    if subprocess.run(['git', '-C', '/repo', 'apply', os.path.abspath(patch)]).returncode:
-        matrix[name] = {'error': 'patch does not apply'}; continue
+    wt = f'/tmp/wt/matrix_{os.getpid()}'
+    subprocess.run(['git', '-C', '/repo', 'worktree', 'remove', '--force', wt], capture_output=True)
+    subprocess.check_call(['git', '-C', '/repo', 'worktree', 'add', '--detach', wt, 'HEAD', '-q'])
+    if subprocess.run(['git', '-C', wt, 'apply', os.path.abspath(patch)]).returncode:
+        matrix[name] = {'error': 'patch does not apply'}
+        subprocess.run(['git', '-C', '/repo', 'worktree', 'remove', '--force', wt], capture_output=True)
+        continue
     try:
         row = {'expected': props}
-        t = subprocess.run('cd /repo && /venv/bin/python -m pytest -q -x -p no:cacheprovider tests 2>&1 | tail -1', shell=True, capture_output=True, text=True).stdout.strip()
+        t = subprocess.run(f'cd {wt} && /venv/bin/python -m pytest -q -x -p no:cacheprovider tests 2>&1 | tail -1', shell=True, capture_output=True, text=True).stdout.strip()
         row['tests'] = t
+        env = dict(os.environ, IXAI_REPO=wt, VERIF_EVIDENCE_DIR=f'/tmp/evidence_matrix_{os.getpid()}')
         for pid in props:
             if pid[1:] not in have:
                 row[pid] = 'no-check-yet'; continue
-            r = subprocess.run(['./check', pid, '--tier', 'quick'], capture_output=True, text=True)
+            r = subprocess.run(['./check', pid, '--tier', 'quick'], capture_output=True, text=True, env=env)
             keys = re.findall(r'key=(\S+)', r.stdout)
             row[pid] = {'exit': r.returncode, 'keys': keys[:4]}
         matrix[name] = row
         print(name, json.dumps(row)[:300], flush=True)
     finally:
-        subprocess.check_call(['git', '-C', '/repo', 'checkout', '--', '.'])
-        subprocess.run(['git', 'checkout', '--', 'evidence'], capture_output=True)
+        subprocess.run(['git', '-C', '/repo', 'worktree', 'remove', '--force', wt], capture_output=True)
 json.dump(matrix, open('mutants/matrix.json', 'w'), indent=1, sort_keys=True)
 missed = [n for n, r in matrix.items() if any(isinstance(v, dict) and v.get('exit') != 1 for k, v in r.items() if k.startswith('C'))]
 print('missed/not-violation:', missed)
